@@ -167,7 +167,7 @@ fn op() -> impl Strategy<Value = Op> {
     prop_oneof![
         5 => (any::<u8>(), 0u8..3).prop_map(|(p, offs)| Op::SetProgram { p, offs }),
         2 => (0u8..4).prop_map(Op::SetVerifier),
-        2 => (1u8..3).prop_map(Op::RegisterHelper),
+        2 => (1u8..3, 0u8..3).prop_map(|(id, v)| Op::RegisterHelper(id | v << 4)),
         1 => (0u8..3).prop_map(Op::SetCalc),
         3 => Just(Op::JitCompile),
         2 => Just(Op::CraneliftCompile),
@@ -292,7 +292,7 @@ unsafe fn child(mem: &Mem10, h: &History, progs: &[(PKind, &'static [u8])]) {
                 let v = [VSel::Default, VSel::Accept, VSel::Reject, VSel::Even][*v as usize % 4];
                 catch(std::panic::AssertUnwindSafe(|| vm.set_verifier(verifier_fn(v)).map(|_| 0)))
             }
-            Op::RegisterHelper(id) => catch(std::panic::AssertUnwindSafe(|| vm.register_helper(*id as u32, pool_fn(helper_pool(*id as u32))).map(|_| 0))),
+            Op::RegisterHelper(x) => catch(std::panic::AssertUnwindSafe(|| vm.register_helper(helper_pool(*x).0, pool_fn(helper_pool(*x).1)).map(|_| 0))),
             Op::SetCalc(c) => {
                 let size = CALCS[*c as usize % 3];
                 catch(std::panic::AssertUnwindSafe(|| vm.set_stack_usage_calculator(calc_fn, Box::new(size)).map(|_| 0)))
@@ -333,8 +333,11 @@ fn effective_offs(pk: PKind, offs: u8) -> u8 {
     }
 }
 
-fn helper_pool(id: u32) -> u8 {
-    [0u8, 1, 6][id as usize % 3]
+/// A register_helper operand: low nibble = id, high nibble = which of the 5-argument pool
+/// functions (re-registering an id with another function is part of the history space).
+fn helper_pool(op: u8) -> (u32, u8) {
+    let (id, variant) = ((op & 15) as u32, op >> 4);
+    (id, [0u8, 1, 6][(id as usize + variant as usize) % 3])
 }
 
 /// Packet used by an execution: the empty packet (#3) only in histories that never load a program
@@ -362,7 +365,8 @@ struct Compiled {
     /// no successful set_program since this compilation: execution must succeed
     fresh: bool,
     prog: usize,
-    helpers: Vec<u32>,
+    /// (id, pool index of the function registered last under that id)
+    helpers: Vec<(u32, u8)>,
     calc: Option<u16>,
     offs: u8,
 }
@@ -371,7 +375,8 @@ struct Compiled {
 struct MState {
     prog: Option<usize>,
     verifier: VSel,
-    helpers: Vec<u32>,
+    /// (id, pool index of the function registered last under that id)
+    helpers: Vec<(u32, u8)>,
     calc: Option<u16>,
     offs: u8,
     jit: Option<Compiled>,
@@ -379,7 +384,7 @@ struct MState {
 }
 
 /// Expected result of running pool program `p` in the given configuration.
-fn expected_value(pool: &[(PKind, Vec<u8>)], kind: u8, p: usize, helpers: &[u32], calc: Option<u16>, offs: u8, pkt: usize, pkt_addr: u64) -> MOut {
+fn expected_value(pool: &[(PKind, Vec<u8>)], kind: u8, p: usize, helpers: &[(u32, u8)], calc: Option<u16>, offs: u8, pkt: usize, pkt_addr: u64) -> MOut {
     let mut case = ExecCase::new(vm_kind(kind, offs), pool[p].1.clone());
     if kind % 4 != 0 {
         case.pkt = PKTS[pkt].to_vec();
@@ -387,7 +392,7 @@ fn expected_value(pool: &[(PKind, Vec<u8>)], kind: u8, p: usize, helpers: &[u32]
     if kind % 4 == 2 {
         case.mbuff = vec![0; 32];
     }
-    case.helpers = helpers.iter().map(|id| (*id, helper_pool(*id))).collect();
+    case.helpers = helpers.to_vec();
     let n = pool[p].1.len();
     case.calc = calc.map(|base| ((0..n / 8).map(|pc| (pc, frame_formula(base, n, pc))).collect(), base));
     model_run(&case, pkt_addr, Quirks::default(), 10_000).out
@@ -504,9 +509,9 @@ pub fn check(mem: &Mem10, h: &History) -> (Verdict, bool) {
                     if !ok {
                         return fail("register_helper:error", "register_helper returned Err".into());
                     }
-                    if !st.helpers.contains(&(*id as u32)) {
-                        st.helpers.push(*id as u32);
-                    }
+                    let (hid, hpool) = helper_pool(*id);
+                    st.helpers.retain(|h| h.0 != hid);
+                    st.helpers.push((hid, hpool));
                 }
                 Op::SetCalc(c) => {
                     if !ok {
@@ -523,7 +528,7 @@ pub fn check(mem: &Mem10, h: &History) -> (Verdict, bool) {
                             }
                         }
                         Some(p) => {
-                            let calls_missing = matches!(pool[p].0, PKind::Helper(id) if !st.helpers.contains(&id));
+                            let calls_missing = matches!(pool[p].0, PKind::Helper(id) if !st.helpers.iter().any(|h| h.0 == id));
                             let local = matches!(pool[p].0, PKind::Frame | PKind::Nest);
                             let invalid = pool[p].0 == PKind::Invalid;
                             if invalid && !is_jit {
@@ -597,7 +602,12 @@ pub fn check(mem: &Mem10, h: &History) -> (Verdict, bool) {
                                     // compiled from the loaded program: either its value, or (if the
                                     // program was re-loaded since) "not compiled"
                                     let want = expected_value(&pool, h.kind, p, &c.helpers, c.calc, st.offs, pkt, addr);
-                                    if (ok || c.fresh) && !value_matches(&want) {
+                                    // a helper re-registered with another function since this
+                                    // compilation: whether compiled code follows is not something
+                                    // the property decides - either function's result is accepted
+                                    let rebound = matches!(pool[p].0, PKind::Helper(id) if c.helpers.iter().find(|h| h.0 == id) != st.helpers.iter().find(|h| h.0 == id));
+                                    let alt = if rebound { Some(expected_value(&pool, h.kind, p, &st.helpers, c.calc, st.offs, pkt, addr)) } else { None };
+                                    if (ok || c.fresh) && !value_matches(&want) && !alt.as_ref().map(|w| value_matches(w)).unwrap_or(false) {
                                         return fail(&format!("{name}:wrong-result"), format!("compiled from pool #{p} ({:?}) and not reloaded since: {}; expected {want:?}", pool[p].0, c.fresh));
                                     }
                                 } else if ok {
